@@ -561,6 +561,7 @@ def exc_kind(e):
 
 # ------------------------------------------------------------------------------------------ deterministic session
 import _thread  # noqa: E402
+import sys  # noqa: E402
 import struct  # noqa: E402
 
 
@@ -601,6 +602,30 @@ class _HookLock:
 
     def __enter__(self):
         self.sess._on_lock_enter()
+        return self
+
+    def __exit__(self, *a):
+        return False
+
+
+class _SftpLock:
+    """Stand-in for SFTPClient._lock in the deterministic session (one task runs at a time, so nothing has to be
+    locked): taking the lock inside _async_request is a park point — whatever the code did *before* it asked for
+    the lock (nothing, in the original) has happened, the allocation has not."""
+
+    def __init__(self, sess):
+        self.sess = sess
+
+    def acquire(self, *a, **k):
+        if sys._getframe(1).f_code.co_name == "_async_request":
+            self.sess._on_sftp_lock()
+        return True
+
+    def release(self):
+        pass
+
+    def __enter__(self):
+        self.acquire()
         return self
 
     def __exit__(self, *a):
@@ -714,6 +739,7 @@ class DetSession:
         self._free_init()
         try:
             self.client = SFTPClient(self.sock)
+            self.client._lock = _SftpLock(self)
         except Hang:
             raise InfraError("deterministic session: version exchange got no answer")
         self._orig_threading = sf.threading
@@ -787,13 +813,27 @@ class DetSession:
         if self.abort:
             raise _Abort()
 
+    def _on_sftp_lock(self):
+        task = self._task()
+        if task is None or not self.tracing:
+            return
+        if task.kind == "thread":
+            # the cap test has passed; the request number is allocated after this point
+            self.trace.append("a tc %d" % task.index)
+            task.checked = True
+            self._park(task, "atlock")
+        else:
+            self._park(task, "ratlock")
+
     def _on_send(self, data):
         task = self._task()
         if task is None or not self.tracing:
             self.sock.c2s += data
             return
         if task.kind == "thread":
-            self.trace.append("a tc %d" % task.index)
+            if not getattr(task, "checked", False):
+                self.trace.append("a tc %d" % task.index)
+            task.checked = False
             self.trace.append("a ta %d" % task.index)
             self._park(task, "atsend")
             self.sock.c2s += data
@@ -882,7 +922,7 @@ class DetSession:
             if task.park == "start" and task.nchunks == 0:
                 return True  # will just end
             return task.cap is None or len(task.fobj._prefetch_extents) < task.cap
-        return task.park in ("atsend", "atreg")
+        return task.park in ("atsend", "atreg", "atlock")
 
     def _reader_enabled(self, rd, more_ops):
         if rd.park == "idle":
@@ -892,7 +932,7 @@ class DetSession:
             return len(b) >= 4 and len(b) >= 4 + struct.unpack(">I", bytes(b[:4]))[0]
         if rd.park == "rdisp":
             return rd.num in self.fobj._prefetch_extents
-        return rd.park == "rsend"
+        return rd.park in ("rsend", "ratlock")
 
     def pending_requests(self):
         """number of complete request packets the server has not answered yet"""
